@@ -228,6 +228,10 @@ def cases(tier, seed):
     out = [{"kind": "water", "T": T, "p": p} for T, p in itertools.product(Tw, pw)]
     out += [{"kind": "oil", "T": T, "api": a, "g": g, "gor": r, "fractions": sorted(fr), "gors": [1.0, 20.0, 650.0, 2500.0]}
             for T, a, g, r in itertools.product(To, apis, gs, gors)]
+    # a cold, nearly dead oil (surface / separator conditions): the bubble-point FVF correlation is at its low end here,
+    # where a "physical floor" or clamp in the parent alone would go unnoticed everywhere else
+    out += [{"kind": "oil", "T": T, "api": a, "g": 0.8, "gor": 20.0, "fractions": [0.5, 1.0, 1.5], "gors": [0.5, 1.0, 3.0, 6.0, 12.0]}
+            for T, a in ((60.0, 35.0), (40.0, 20.0), (60.0, 55.0))]
     for fl in ([35.0, 0.8, 650.0], [20.0, 0.65, 150.0]):
         out.append({"kind": "history", "fluid": fl, "temps": [120.0, 300.0, 120.0, 210.0, 300.0],
                     "pressures": [400.0, 1200.0, 2000.0, 2600.0, 3300.0, 5000.0]})
